@@ -15,6 +15,9 @@
 // harness (NOT REGISTERED: flat_map + collect over Vec<MeanVari> exhaust 12 GB under CBMC even in the shim environment) name=duration_body_uses_duration_weights_in_order tier=quick label=bounded(2-labels,2-states,shim-environment) props=C10,C01 timeout=900
 // harness (NOT REGISTERED: flat_map + collect over Vec<MeanVari> exhaust 12 GB under CBMC even in the shim environment) name=stream_body_states_weights_and_msd tier=quick label=bounded(2-labels,2-states,shim-environment) props=C10,C11,C01 timeout=900
 // harness (NOT REGISTERED: flat_map + collect over Vec<MeanVari> exhaust 12 GB under CBMC even in the shim environment) name=gv_body_switch_weights_and_none tier=quick label=bounded(2-labels,2-states,shim-environment) props=C12,C10 timeout=900
+// harness (NOT REGISTERED: even 1 label x 1 state reaches 12 GB in 4 minutes: flat_map + collect / slice::repeat) name=gv_body_which_weights_small tier=quick label=bounded(1-label,1-state,shim-environment) props=C10,C12 timeout=900
+// harness (NOT REGISTERED: even 1 label x 1 state reaches 12 GB in 4 minutes: flat_map + collect / slice::repeat) name=duration_body_which_weights_small tier=quick label=bounded(1-label,1-state,shim-environment) props=C10 timeout=900
+// harness (NOT REGISTERED: even 1 label x 1 state reaches 12 GB in 4 minutes: flat_map + collect / slice::repeat) name=stream_body_which_weights_small tier=quick label=bounded(1-label,1-state,shim-environment) props=C10,C11 timeout=900
 use super::*;
 
 pub struct SLabel(usize);
@@ -144,6 +147,64 @@ fn gv_body_switch_weights_and_none() {
     assert!(g.1.len() == 4 && !g.1[0] && !g.1[1] && g.1[2] && g.1[3]);
     let g0 = m.gv(0).unwrap();
     assert!(g0.0[0].0 == 7000.0 && g0.0[0].1 == 30.0);
+    kani::cover!(true);
+    std::mem::forget(m);
+}
+
+/// the smallest world: 1 label, 1 state, 2 streams (stream 0: MSD 0.75 + GV, stream 1: no MSD, no GV)
+fn small_world(gv_off: bool) -> SModels {
+    let one = |v: f64, msd: Option<f64>| SModel { base: v, nl: 1, msd, table: vec![ModelParameter { parameters: vec![MeanVari(v, 1.0)], msd }] };
+    SModels {
+        labels: vec![SLabel(0)],
+        voices: SVoices {
+            voice: SVoice {
+                duration_model: one(5000.0, None),
+                stream_models: vec![SStream { stream_model: one(1000.0, Some(0.75)), gv_model: Some(one(7000.0, None)) },
+                                    SStream { stream_model: one(2000.0, None), gv_model: None }],
+            },
+            g: SGlobal { num_states: 1, gv_off_context: SQuestion(vec![gv_off]) },
+            sm: vec![SStreamMeta { use_gv: true, vector_length: 1 }, SStreamMeta { use_gv: false, vector_length: 1 }],
+        },
+        weights: SIW { d: SW(11.0), p: vec![SW(20.0), SW(21.0)], g: vec![SW(30.0), SW(31.0)] },
+    }
+}
+
+/// C10 / C12: the GV statistics of stream i are combined with the GV weights of stream i (not the parameter or
+/// duration weights), from the GV model; the switch is the negated GV-off test; no GV without use_gv
+#[kani::proof]
+#[kani::unwind(4)]
+fn gv_body_which_weights_small() {
+    let m = small_world(false);
+    let g = m.gv(0).unwrap();
+    assert!(g.0.len() == 1 && g.0[0].0 == 7000.0 && g.0[0].1 == 30.0);
+    assert!(g.1.len() == 1 && g.1[0]);
+    assert!(m.gv(1).is_none());
+    kani::cover!(true);
+    std::mem::forget(m);
+    std::mem::forget(g);
+}
+
+/// C10: durations are combined with the DURATION weights, from the duration model at state 2
+#[kani::proof]
+#[kani::unwind(4)]
+fn duration_body_which_weights_small() {
+    let m = small_world(false);
+    let d = m.duration();
+    assert!(d.len() == 1 && d[0].0 == 5000.0 && d[0].1 == 11.0);
+    kani::cover!(true);
+    std::mem::forget(m);
+}
+
+/// C10 / C11: stream i is combined with the PARAMETER weights of stream i from stream model i; a present MSD
+/// weight is passed through, an absent one becomes f64::MAX
+#[kani::proof]
+#[kani::unwind(4)]
+fn stream_body_which_weights_small() {
+    let m = small_world(false);
+    let s0 = m.stream(0);
+    assert!(s0.len() == 1 && s0[0].0.len() == 1 && s0[0].0[0].0 == 1000.0 && s0[0].0[0].1 == 20.0 && s0[0].1 == 0.75);
+    let s1 = m.stream(1);
+    assert!(s1.len() == 1 && s1[0].0[0].0 == 2000.0 && s1[0].0[0].1 == 21.0 && s1[0].1 == f64::MAX);
     kani::cover!(true);
     std::mem::forget(m);
 }
